@@ -16,6 +16,7 @@ class OperationHung(Exception):
 
 
 _hangs_seen = 0
+SHARED_CONTEXT = None      # set by a check while its clients are to share one context
 _ops_run = 0
 _IDLE_RNG = __import__("random").Random(20260928)
 OP_TIMEOUT_S = 20.0   # real seconds: measured with time.monotonic below, immune to the virtual reply delays of C03   # generous: on loopback a reply is there in microseconds; only a client waiting for bytes nobody will send gets here
@@ -58,7 +59,11 @@ class Client:
         global _hangs_seen
         # the first two hangs of a worker get the full, generous wait; once they are on record the rest only need to be skipped quickly
         limit = OP_TIMEOUT_S if _hangs_seen < 2 else 1.0
-        task = asyncio.ensure_future(ops.call(self.api, op, args, remote))
+        if SHARED_CONTEXT is not None:
+            # the application runs all its tasks in one contextvars.Context (a task factory, TaskGroup.create_task(context=...))
+            task = asyncio.get_running_loop().create_task(ops.call(self.api, op, args, remote), context=SHARED_CONTEXT)
+        else:
+            task = asyncio.ensure_future(ops.call(self.api, op, args, remote))
         t0, spins = REAL_MONOTONIC(), 0
         while not task.done():
             # a watchdog on the real clock (the event loop's clock may be warped by virtual reply delays)
